@@ -177,7 +177,9 @@ Definition f_truncate (v num e : val) : fres :=
   end.
 
 (* ---- truncatewords ---- *)
-Definition is_space (c : N) : bool := ((c =? 32) || (9 <=? c) && (c <=? 13))%N.
+(* str.isspace on ASCII: space, TAB..CR and the four separators FS GS RS US (28..31); U+0085, U+00A0 and the other
+   non-ASCII spaces are outside the model *)
+Definition is_space (c : N) : bool := ((c =? 32) || (9 <=? c) && (c <=? 13) || (28 <=? c) && (c <=? 31))%N.
 
 (* str.split() : maximal runs of non-whitespace *)
 Fixpoint words_go (s : str) (cur : str) : list str :=
